@@ -603,7 +603,7 @@ func encodeXtext(raw string) string {
 			out.WriteRune(ch)
 		default:
 			out.WriteRune('+')
-			out.WriteString(strings.ToUpper(strconv.FormatInt(int64(ch), 16)))
+			out.WriteString(fmt.Sprintf("%02X", ch))
 		}
 	}
 	return out.String()
@@ -623,7 +623,7 @@ func encodeUTF8AddrXtext(raw string) string {
 			out.WriteRune('\\')
 			out.WriteRune('x')
 			out.WriteRune('{')
-			out.WriteString(strings.ToUpper(strconv.FormatInt(int64(ch), 16)))
+			out.WriteString(fmt.Sprintf("%02X", ch))
 			out.WriteRune('}')
 		}
 	}
@@ -645,7 +645,7 @@ func encodeUTF8AddrUnitext(raw string) string {
 			out.WriteRune('\\')
 			out.WriteRune('x')
 			out.WriteRune('{')
-			out.WriteString(strings.ToUpper(strconv.FormatInt(int64(ch), 16)))
+			out.WriteString(fmt.Sprintf("%02X", ch))
 			out.WriteRune('}')
 		default:
 			// UTF-8 non-ASCII
